@@ -3784,6 +3784,20 @@ skip_nv:
     for (i = 0; i < array_size && rc == TPM_RC_SUCCESS; i++) {
         rc = ANY_OBJECT_Unmarshal(&s_objects[i], buffer, size, true);
     }
+    /* g_DRTMHandle is used without further checks by _TPM_Hash_Start/Data/End
+       and ObjectTerminateEvent(): it has to be unassigned or reference an
+       event sequence in an occupied slot */
+    if (rc == TPM_RC_SUCCESS && g_DRTMHandle != TPM_RH_UNASSIGNED) {
+        UINT32 idx = g_DRTMHandle - TRANSIENT_FIRST;
+
+        if (idx >= ARRAY_SIZE(s_objects) ||
+            !s_objects[idx].attributes.occupied ||
+            !((HASH_OBJECT *)&s_objects[idx])->attributes.eventSeq) {
+            TPMLIB_LogTPM2Error("Volatile state: g_DRTMHandle 0x%08x does not "
+                                "reference an event sequence\n", g_DRTMHandle);
+            rc = TPM_RC_BAD_PARAMETER;
+        }
+    }
 #else
 # error Unsupport #define value(s)
 #endif
